@@ -22,6 +22,7 @@ RULE = (
     "bitwise in all four fields; result carries beta_new, requested size, same namespace and width. "
     "Non-trivial = non-uniform p AND >=1 duplicated AND >=1 dropped source row."
 )
+RULE += " " + ('Object histories before the resampling call: weights / evidence ratio / tempered density evaluated at the target temperature (these read-only diagnostics must leave x and the three densities unchanged), then optionally the likelihood or the temperature assigned as the samplers do.')
 ASSUMPTIONS = [
     "p tolerance: 64*eps*(max|incremental log w|+1) + N*eps relative to each p_i plus 1e-300 (float64) or 1e-30 (float32, sub-normal range) absolute",
     "the recording generator forwards to numpy.random.Generator(seed) so index draws are genuine",
